@@ -11,8 +11,8 @@ from common import S, Err, Names, call_impl
 from recorder import Recorder, installed
 
 MODELLED = ["name_PL", "short_name_PL", "name_Cumulative", "name_BT", "from_point", "slate_PL", "slate_BT",
-            "AlternatingCrossover", "OneDimSpatial", "Spatial", "ClusteredSpatial"]
-UNMODELLED = ["ImpartialCulture", "ImpartialAnonymousCulture", "name_BT_MCMC", "slate_BT_MCMC", "CambridgeSampler"]
+            "AlternatingCrossover", "OneDimSpatial", "Spatial", "ClusteredSpatial", "name_BT_MCMC", "slate_BT_MCMC"]
+UNMODELLED = ["ImpartialCulture", "ImpartialAnonymousCulture", "CambridgeSampler"]
 SUP = [1.0, 2.0, 0.5, 0.25, 3.0, 4.0, 0.125, 8.0, 0.0]
 COH = {1: [[1.0]], 2: [[0.75, 0.25], [0.5, 0.5], [1.0, 0.0], [0.875, 0.125], [0.0, 1.0], [0.25, 0.75]],
        3: [[0.5, 0.25, 0.25], [0.75, 0.125, 0.125], [1.0, 0.0, 0.0], [0.25, 0.5, 0.25]]}
@@ -28,6 +28,10 @@ def gen_params(rng, gname):
     sizes = [rng.randint(1, 3) for _ in blocs]
     if gname == "AlternatingCrossover" and rng.random() < 0.7:
         sizes = [sizes[0], sizes[0]]
+    if gname in ("name_BT", "name_BT_MCMC", "slate_BT", "slate_BT_MCMC"):
+        # the exact samplers enumerate n! rankings: keep the candidate count small
+        while sum(sizes) > 5:
+            sizes[sizes.index(max(sizes))] -= 1
     slates = {b: [f"{b}{i}" for i in range(k)] for b, k in zip(blocs, sizes)}
     ints = {}
     for b in blocs:
@@ -60,6 +64,8 @@ def gen_case(rng, gname=None):
             c["point"] = dict(zip(c["cands"], vals))
         if gname == "ClusteredSpatial":
             c["per_cand"] = {x: rng.randint(0, 3) for x in c["cands"]}
+            if sum(c["per_cand"].values()) == 0:
+                c["per_cand"][c["cands"][0]] = 1
         return c
     c.update(gen_params(rng, gname))
     if gname == "short_name_PL":
@@ -105,10 +111,13 @@ def build_generator(case):
     g = case["gen"]
     if g in ("OneDimSpatial",):
         return bg.OneDimSpatial(candidates=list(case["cands"]))
+    # explicit integer sizes: the classes' own default kwargs (size=2.0) are rejected by numpy 2.x
     if g == "Spatial":
-        return bg.Spatial(candidates=list(case["cands"]))
+        kw = {"low": 0.0, "high": 1.0, "size": 2}
+        return bg.Spatial(candidates=list(case["cands"]), voter_dist_kwargs=dict(kw), candidate_dist_kwargs=dict(kw))
     if g == "ClusteredSpatial":
-        return bg.ClusteredSpatial(candidates=list(case["cands"]))
+        return bg.ClusteredSpatial(candidates=list(case["cands"]), voter_dist_kwargs={"loc": 0, "scale": 1.0, "size": 2},
+                                   candidate_dist_kwargs={"low": 0.0, "high": 1.0, "size": 2})
     if g == "ImpartialCulture":
         return bg.ImpartialCulture(candidates=list(case["cands"]))
     if g == "ImpartialAnonymousCulture":
@@ -327,6 +336,55 @@ def model_call(case, run):
             barg.append([bid[b], pi_val(nm, iv, zero), n, draws])
         return {"op": 97, "arg": barg, "expect": expected_gen(nm, case, run, calls),
                 "what": "name_BradleyTerry (exact): table sampler from the C15 table", "names": nm, "round": True}
+    if g == "name_BT_MCMC":
+        barg, li = [], 0
+        seq = list(log)
+        for b, n in zip(blocs, sizes):
+            iv, zero = exact_combined(case, b)
+            seed = [str(c) for c in run["gen"].pref_interval_by_bloc[b].non_zero_cands]
+            while seq[li]["kind"] != "choices":
+                li += 1
+            js = [int(x) for x in seq[li]["result"]]
+            li += 1
+            us = []
+            for _ in range(n):
+                us.append(Fraction(seq[li]["exact"]))
+                li += 1
+            barg.append([bid[b], pi_val(nm, iv, zero), [nm.id(c) for c in seed], [[j, u] for j, u in zip(js, us)]])
+        return {"op": 103, "arg": barg, "expect": expected_gen(nm, case, run, []),
+                "what": "name_BradleyTerry MCMC: adjacent-swap chain replayed on the recorded proposals and uniforms", "names": nm}
+    if g == "slate_BT_MCMC":
+        barg, li = [], 0
+        seq = list(log)
+        allcalls = []
+        for k, (b, n) in enumerate(zip(blocs, sizes)):
+            ivs = [(b2,) + exact_interval(case["intervals"][b][b2]) for b2 in blocs]
+            zero = [c for (_, _, z) in ivs for c in z]
+            ivals = [[bid[b2], pi_val(nm, iv, z)] for (b2, iv, z) in ivs]
+            seed = [bid[b2] for (b2, iv, z) in ivs for _ in range(len(iv))]
+            while not (seq[li]["kind"] == "np_choice" and isinstance(seq[li]["a"], int)):
+                li += 1
+            js = [int(x) for x in np.array(seq[li]["result"], ndmin=1).tolist()]
+            li += 1
+            us = []
+            for _ in range(n):
+                us.append(Fraction(seq[li]["exact"]))
+                li += 1
+            orders = []
+            for _ in range(n):
+                o = []
+                for b2 in blocs:
+                    if len(exact_interval(case["intervals"][b][b2])[0]) == 0:
+                        continue
+                    e2 = seq[li]
+                    li += 1
+                    o.append([bid[b2], [nm.id(str(x)) for x in e2["result"]]])
+                    allcalls.append(call_val(nm, e2))
+                orders.append(o)
+            barg.append([bid[b], ivals, bid[b], Fraction(case["cohesion"][b][b]), [nm.id(c) for c in zero], seed,
+                         [[j, u] for j, u in zip(js, us)], orders])
+        return {"op": 104, "arg": barg, "expect": expected_gen(nm, case, run, allcalls),
+                "what": "slate_BradleyTerry MCMC: ballot-type chain replayed + per-slate Plackett-Luce orders", "names": nm, "round": True}
     if g in ("slate_PL", "slate_BT"):
         barg, pos = [], 0
         unif = [e for e in log if e["kind"] == "np_uniform"]
